@@ -2,6 +2,8 @@ package main
 
 import (
 	"fmt"
+	"sort"
+	"strings"
 	"go/types"
 
 	"golang.org/x/tools/go/ssa"
@@ -773,4 +775,28 @@ func init() {
 		x.q.declareFun("lib_parseAddrOK", []string{"Str"}, "Bool")
 		return Val{S: "(lib_parseAddrOK " + args[0].S + ")", T: types.Typ[types.Bool]}, nil
 	}
+}
+
+func init() {
+	// (*sync.Cond).Wait releases the monitor: in a function whose contract says `yields`, every heap (not the ghosts, not
+	// the allocation set) is arbitrary afterwards. Without the clause the wait is a no-op (stated in the evidence).
+	regLib("(*sync.Cond).Wait", func(x *FnExec, fr *frame, n *node, in ssa.Instruction, c *ssa.CallCommon, args []Val, reach, hint string) (Val, error) {
+		if x.topSpec != nil && x.topSpec.Yields {
+			var hs []string
+			for h := range x.q.heaps {
+				if strings.HasPrefix(h, "$") {
+					continue
+				}
+				hs = append(hs, h)
+			}
+			sort.Strings(hs)
+			for _, h := range hs {
+				x.heapHavoc(n.st, h)
+			}
+			x.trusted["sync.Cond.Wait (yields): all heaps arbitrary after the wait; allocation set and ghosts kept"] = true
+		} else {
+			x.trusted["sync.Cond.Wait treated as a no-op (no `yields` clause): state read before the wait is assumed unchanged after it"] = true
+		}
+		return Val{T: resultType(in, c)}, nil
+	})
 }
